@@ -166,6 +166,56 @@ static void far_section(void) {
     munmap(map, maplen);
 }
 
+/* ---------------------------------------------------------------- literal widths
+ * Set / Get are static inline functions: at a call site whose width is a literal the compiler specialises them
+ * (constant propagation, __builtin_constant_p). Every width 1..64 as a literal x every offset in [0, 3W) x values x
+ * priors, against the same bit-array model (64-bit words; the 32-bit instance has its own translation unit). */
+#define LITW_ONE(W)                                                                                                \
+    for (size_t off = 0; off < 192; off++) {                                                                       \
+        if ((off + (W) - 1) / 64 >= WORDS) {                                                                       \
+            continue;                                                                                              \
+        }                                                                                                          \
+        uint64_t mask_ = (W) == 64 ? UINT64_MAX : ((1ULL << ((W) & 63)) - 1);                                      \
+        uint64_t vv_[3] = {mask_, 0x5555555555555555ULL & mask_, 1};                                               \
+        for (int bg = 0; bg < 4; bg++) {                                                                           \
+            for (int vi = 0; vi < 3; vi++) {                                                                       \
+                memset(BUF, bgs[bg], sizeof BUF);                                                                  \
+                memset(MOD, bgs[bg], sizeof MOD);                                                                  \
+                uint8_t *st = BUF + PADW * 8, *mo = MOD + PADW * 8;                                                \
+                varintBitstreamSet((vbits *)st, off, (W), (vbitsVal)vv_[vi]);                                      \
+                uint64_t got_ = varintBitstreamGet((const vbits *)st, off, (W));                                   \
+                model_set(mo, 64, off, (W), vv_[vi]);                                                              \
+                /* the same field read with a run-time width: both readers must agree with the model */            \
+                uint64_t got2_ = bs64_get(st, off, wvar);                                                          \
+                if (memcmp(BUF, MOD, sizeof BUF) || got_ != vv_[vi] || got2_ != vv_[vi]) {                         \
+                    vh_fail("bitstream.Set", memcmp(BUF, MOD, sizeof BUF) ? "bits_outside_range_changed" : "wrong_value", "untagged",                           \
+                            "u64 words, width written as the literal %d: offset %zu value 0x%" PRIx64 " prior %02x: literal-width Get 0x%" PRIx64 ", run-time-width Get 0x%" PRIx64 ", stream %s the model", (W), off, vv_[vi], bgs[bg], got_, \
+                            got2_, memcmp(BUF, MOD, sizeof BUF) ? "differs from" : "equals");                      \
+                }                                                                                                  \
+                vh_count("calls", 3);                                                                              \
+            }                                                                                                      \
+        }                                                                                                          \
+    }
+static void literal_widths(void) {
+    if (!vh_section_begin("literal-widths")) {
+        return;
+    }
+    static const uint8_t bgs[4] = {0x00, 0xff, 0x55, 0xaa};
+#define LITW(W)                                                                                                    \
+    if (vh_case()) {                                                                                               \
+        volatile size_t wv_ = (W);                                                                                 \
+        size_t wvar = wv_;                                                                                         \
+        LITW_ONE(W)                                                                                                \
+        vh_count("cases", 1);                                                                                      \
+    }
+    LITW(1) LITW(2) LITW(3) LITW(4) LITW(5) LITW(6) LITW(7) LITW(8) LITW(9) LITW(10) LITW(11) LITW(12) LITW(13) LITW(14) LITW(15) LITW(16)
+    LITW(17) LITW(18) LITW(19) LITW(20) LITW(21) LITW(22) LITW(23) LITW(24) LITW(25) LITW(26) LITW(27) LITW(28) LITW(29) LITW(30) LITW(31) LITW(32)
+    LITW(33) LITW(34) LITW(35) LITW(36) LITW(37) LITW(38) LITW(39) LITW(40) LITW(41) LITW(42) LITW(43) LITW(44) LITW(45) LITW(46) LITW(47) LITW(48)
+    LITW(49) LITW(50) LITW(51) LITW(52) LITW(53) LITW(54) LITW(55) LITW(56) LITW(57) LITW(58) LITW(59) LITW(60) LITW(61) LITW(62) LITW(63) LITW(64)
+#undef LITW
+    vh_class("literal-widths/u64", "64 literal widths x 192 offsets x 3 values x 4 priors");
+}
+
 #ifndef NO_HYGIENE
 #define HYG_BITSTREAM 1
 #include "hygiene.h"
@@ -260,6 +310,7 @@ int main(int argc, char **argv) {
         }
     }
     far_section();
+    literal_widths();
 #ifndef NO_HYGIENE
     if (vh_section_begin("macro_hygiene") && vh_case()) {
         hygiene_bitstream();
